@@ -36,6 +36,10 @@ CLAIMS["C02"] = dict(
 CLAIMS["C04"] = dict(
     text="The canonical encoding of each skeleton (symbolic contents) is parsed into a generic TLV tree and re-encoded with the freedoms BER/RFC 4511 permit (long-form lengths per node and globally, TRUE as a symbolic non-zero octet, explicit DEFAULT values, one unrecognised trailing element with symbolic tag/content after each extensible SEQUENCE); z3 proves the library decodes every variant to the original message.",
     ref="DESIGN.md 3/C04", technique="symbolic execution of the real decoder on re-encoded variants (SX) + z3 validity queries")
+CLAIMS["C08"] = dict(text='Inductive step on the real LDAPClient/LDAPServer objects (one public call with symbolic id / result code / drain amount from an arbitrary symbolic pre-state satisfying the representation invariant, which every real-mode replay reaches through public calls only) plus bounded model checking of every call sequence of depth 2 (quick) / 3 (thorough) from fresh sessions; post-conditions come from an independent ghost model of the documented state machine and are z3 validity queries. Clauses checked here: state transition table, CLOSED absorbing (rejected, no bytes, no data accepted), bind refused while operations are outstanding, only bind traffic or terminations while BINDING, invariant preserved.', ref="DESIGN.md 3/C08-C12", technique="symbolic execution of real session calls from symbolic pre-states (one-step induction) + bounded model checking, z3 validity queries against a ghost state machine")
+CLAIMS["C09"] = dict(text='Inductive step on the real LDAPClient/LDAPServer objects (one public call with symbolic id / result code / drain amount from an arbitrary symbolic pre-state satisfying the representation invariant, which every real-mode replay reaches through public calls only) plus bounded model checking of every call sequence of depth 2 (quick) / 3 (thorough) from fresh sessions; post-conditions come from an independent ghost model of the documented state machine and are z3 validity queries. Clauses checked here: returned id = old counter >= 1, counter +1, id decoded (reference decoder) from the emitted bytes equals the returned id, acceptance iff the id is in progress, searches retired only by done, unknown/retired id or request-type message => ProtocolError + CLOSED.', ref="DESIGN.md 3/C08-C12", technique="symbolic execution of real session calls from symbolic pre-states (one-step induction) + bounded model checking, z3 validity queries against a ghost state machine")
+CLAIMS["C10"] = dict(text='Inductive step on the real LDAPClient/LDAPServer objects (one public call with symbolic id / result code / drain amount from an arbitrary symbolic pre-state satisfying the representation invariant, which every real-mode replay reaches through public calls only) plus bounded model checking of every call sequence of depth 2 (quick) / 3 (thorough) from fresh sessions; post-conditions come from an independent ghost model of the documented state machine and are z3 validity queries. Clauses checked here: a refused call leaves the outgoing stream untouched and raises only LDAPError; the server emits only for outstanding ids; final responses retire the request.', ref="DESIGN.md 3/C08-C12", technique="symbolic execution of real session calls from symbolic pre-states (one-step induction) + bounded model checking, z3 validity queries against a ghost state machine")
+CLAIMS["C12"] = dict(text='Inductive step on the real LDAPClient/LDAPServer objects (one public call with symbolic id / result code / drain amount from an arbitrary symbolic pre-state satisfying the representation invariant, which every real-mode replay reaches through public calls only) plus bounded model checking of every call sequence of depth 2 (quick) / 3 (thorough) from fresh sessions; post-conditions come from an independent ghost model of the documented state machine and are z3 validity queries. Clauses checked here: data_to_send(a) returns x with x + rest == before for every int a or None and changes nothing else; every other call only appends (and a successful send appends one well-formed message); by induction the drained concatenation equals the concatenation of the successful sends.', ref="DESIGN.md 3/C08-C12", technique="symbolic execution of real session calls from symbolic pre-states (one-step induction) + bounded model checking, z3 validity queries against a ghost state machine")
 PENDING = {}
 
 def main():
